@@ -27,6 +27,52 @@ def jars():
     return {"foam.jar": os.path.join(common.COMP, "lib", "libfoam", "al", "foam.jar"),
             "aldor.jar": os.path.join(common.ALDOR_TOP, "lib", "aldor", "src", "aldor.jar")}
 
+def lib_classes(build, foamj, stats):
+    """The library jars in the tree (libfoam: foam.jar, libaldor: aldor.jar) hold Java that an earlier
+    build of the compiler generated from the libraries' .ao files; after an edit of the Java back end they
+    are stale.  So the Java of every unit found in the two jars is generated again from the same .ao file
+    with the tree's current compiler (`aldor -Fjava unit.ao`, as lib/buildlib.mk does), compiled, and put
+    in front of the jars on the class path.  ~80 units, ~15 s.  Units that cannot be regenerated keep
+    their class from the jar."""
+    import zipfile
+    d = getattr(build, "lib_classes_dir", None)
+    if d is not None: return d
+    J = jars()
+    where = {"aldor.jar": os.path.join(common.ALDOR_TOP, "lib", "aldor", "src", "*"),
+             "foam.jar": os.path.join(common.COMP, "lib", "libfoam", "al")}
+    import glob
+    jobs, units = [], []
+    for jar, pat in where.items():
+        names = sorted({n[len("aldorcode/"):-len(".class")] for n in zipfile.ZipFile(J[jar]).namelist()
+                        if n.startswith("aldorcode/") and n.endswith(".class") and "$" not in n})
+        for u in names:
+            aos = glob.glob(os.path.join(pat, u + ".ao"))
+            if not aos:
+                stats.setdefault("lib_units_kept_from_jar", []).append(u); continue
+            units.append(u)
+            jobs.append((aldor.compile, (build, {u + ".ao": open(aos[0], "rb").read()}, ["-Fjava", u + ".ao"]), {"timeout": 300}))
+    out = os.path.join(build.top, "lib-classes")
+    srcd = os.path.join(build.top, "lib-java", "aldorcode")
+    os.makedirs(out, exist_ok=True); os.makedirs(srcd, exist_ok=True)
+    files = []
+    for u, r in zip(units, aldor.run_many(jobs, workers=16)):
+        jsrc = None if isinstance(r, Exception) else r["outputs"].get(os.path.join("aldorcode", u + ".java"))
+        if jsrc is None:
+            stats.setdefault("lib_units_kept_from_jar", []).append(u); continue
+        f = os.path.join(srcd, u + ".java")
+        with open(f, "wb") as h: h.write(jsrc)
+        files.append(f)
+    if files:
+        rc, o, e = common.run(["javac", "-nowarn", "-cp", foamj, "-d", out] + files, timeout=1200)
+        if rc != 0:
+            # the regenerated library does not compile: that is the Java route failing on the library's own code
+            stats["lib_regenerated"] = "javac failed: " + (o + e)[-400:]
+            build.lib_classes_dir = ""
+            return ""
+    stats["lib_regenerated"] = "%d units of libaldor/libfoam regenerated from their .ao with the tree's compiler" % len(files)
+    build.lib_classes_dir = out
+    return out
+
 def java_route(build, foamj, text, name, q, timeout=120):
     """-> dict(stage, rc, stdout, stderr, log, commands)"""
     src = name + ".as"
@@ -185,6 +231,12 @@ def run_part(ctx, build):
         ctx.assumptions.append(stats["status"])
         return stats
     foamj = jmap.foamj_classes(build)
+    lib = lib_classes(build, foamj, stats)
+    if lib == "":
+        ctx.violation("java|library-javac-fail", "the Java generated by the tree's compiler for the library units does not compile: " + stats["lib_regenerated"],
+                      {"kind": "javac-fail", "log": stats["lib_regenerated"]}, found_input=False)
+    elif lib:
+        foamj = foamj + ":" + lib          # class path prefix used by javac and java from here on
     # one smoke run decides whether the route works at all in this tree
     hello = '#include "aldor"\n#include "aldorio"\nimport from MachineInteger;\nstdout << "hello " << 1+2 << newline;\n'
     i, j = both(build, foamj, hello, "jhello", 1)
@@ -195,7 +247,7 @@ def run_part(ctx, build):
         else:
             stats["status"] = "java route unavailable: the interpreter route fails on hello-world (%s)" % (i["stdout"] + i["stderr"])[-200:]
         return stats
-    stats["status"] = "java route available (foamj from the tree's sources; foam.jar, aldor.jar from /repo)"
+    stats["status"] = "java route available (foamj from the tree's sources; library classes regenerated in front of foam.jar, aldor.jar)"
     thorough = ctx.tier == "thorough"
     progs = load_dir(os.path.join(VERIF, "corpus", "java"))
     # generated programs, when the MiniAldor layer exists.  Features: big integers, booleans, strings,
@@ -222,7 +274,7 @@ def run_part(ctx, build):
     stats["programs"] = len(progs)
     jobs, keys = [], []
     for pname, text in progs:
-        for q in QS:
+        for q in ([int(x) for x in header(text, "Qs").split()] if header(text, "Qs") else QS):
             jobs.append((both, (build, foamj, text, pname, q), {})); keys.append((pname, text, q))
     res = aldor.run_many(jobs, workers=16)
     budget = 120 if thorough else 40
@@ -253,6 +305,15 @@ def run_part(ctx, build):
         stats["differ"][kind] = stats["differ"].get(kind, 0) + 1
         report(ctx, build, foamj, pname, text, q, kind, i, j, budget)
         budget = max(0, budget - 40)
+    # are the library jars shipped in the tree current?  (build products: a stale jar is reported in the
+    # coverage, it is not a defect of the code)
+    probes = [(n, t) for n, t in progs if header(t, "stale-jar-probe")]
+    if lib and probes:
+        plain = jmap.foamj_classes(build)
+        res = aldor.run_many([(both, (build, plain, t, n, 1), {}) for n, t in probes], workers=16)
+        bad = [n for (n, t), r in zip(probes, res) if not isinstance(r, Exception) and classify(*r) not in (None, "invalid")]
+        stats["shipped_library_jars"] = ("STALE: with foam.jar/aldor.jar as found in the tree (without the regenerated classes) %s differ from the "
+                                         "interpreter at -Q1; rebuild the jars (lib/aldor, lib/libfoam: make)" % ", ".join(bad)) if bad else "current"
     # programs that are expected to differ
     wit = load_dir(os.path.join(VERIF, "corpus", "java", "witness"))
     jobs = [(both, (build, foamj, text, pname, int(header(text, "Q") or 1)), {}) for pname, text in wit]
